@@ -11,52 +11,52 @@ TRUST = ("Trusted base: Kani 0.68 / CBMC 6.11 / CaDiCaL, dev-profile semantics, 
          "of DESIGN.md §1.5; harness oracles written from the property text. ")
 
 P = {
- "C01": dict(claimed=False, tech="bounded model checking (Kani/CBMC): parser + serializer round-trip harnesses, symbolic content over enumerated shapes",
+ "C01": dict(claimed=True, tech="bounded model checking (Kani/CBMC): parser + serializer round-trip harnesses, symbolic content over enumerated shapes",
    text="For every byte content inside each enumerated transaction/block shape, the real read_* functions return fields equal to the LE slices at oracle-computed offsets, ToRaw re-serialization equals the witness-stripped input, CompactSize decode is complete for all 9-byte inputs, and CsvDump::on_block emits one row per item in order. Bounded, not a proof.",
    note="Outside: SHA-256 itself (uninterpreted), integer Display beyond the sampled digits, shapes beyond the listed counts/lengths."),
- "C02": dict(claimed=False, tech="bounded model checking (Kani/CBMC): assume-guarantee decomposition of the driver loop",
+ "C02": dict(claimed=True, tech="bounded model checking (Kani/CBMC): assume-guarantee decomposition of the driver loop",
    text="BlockHeightRange::new, ChainIndex::new (clamp/trim over full-width u64 start/end), one ChainStorage::get_block step and BlockchainParser::start with a recording callback are checked for every start/end within small chain lengths; file names rendered by the three on_complete implementations.",
    note="Outside: chains longer than the bound (number of blocks), real callbacks' outputs (other properties)."),
- "C03": dict(claimed=False, tech="bounded model checking (Kani/CBMC): differential harness against Bitcoin Core's VarInt reference + dispatch/seek harnesses",
+ "C03": dict(claimed=True, tech="bounded model checking (Kani/CBMC): differential harness against Bitcoin Core's VarInt reference + dispatch/seek harnesses",
    text="read_varint equals the Core reference on every <=10-byte input; index records decode field-by-field; get_block asks the file/offset named by the record; read_block reads the size prefix and header at that offset regardless of the previous reader position.",
    note="Outside: directory enumeration and symlink resolution (real FS), hundreds of files."),
- "C04": dict(claimed=False, tech="bounded model checking (Kani/CBMC) of get_block_index over symbolic fork histories",
-   text="For active chains of length 2-3 plus one competitor record with symbolic status/height/file fields and each key order, the built index holds exactly the active records.",
-   note="Outside: more than two competitors; indexes without a unique best chain."),
- "C05": dict(claimed=False, tech="bounded model checking (Kani/CBMC): differential harness vs byte-template oracle, all contents per script length",
+ "C04": dict(claimed=True, tech="bounded model checking (Kani/CBMC) of get_block_index over symbolic fork histories",
+   text="get_block_index over an active chain of 2 blocks plus one competitor record (all hashes, the competitor status within its kind, file/offset symbolic; key order and competitor height concrete per instance): header-only / failed-without-data competitors never displace an active record, data-bearing competitors sorting before the active block do not either. Two genuine defects are recorded as known findings (data-bearing competitor sorting after the active block; data-bearing competitor above the tip).",
+   note="Outside: more than one competitor; indexes without a unique best chain; prev-hash linkage of delivered blocks (checked by --verify, C09). known_findings.json lists the two open findings; any other failing assertion still fails the check."),
+ "C05": dict(claimed=True, tech="bounded model checking (Kani/CBMC): differential harness vs byte-template oracle, all contents per script length",
    text="For every content of each listed script length on Bitcoin and testnet3, pattern and address payload equal a reference classifier written from the property text; multisig structure checked with the real is_multisig.",
    note="Outside: Base58/Bech32 digit encoding and checksums (stubbed, payload recorded), scripts longer than the listed lengths."),
- "C06": dict(claimed=False, tech="bounded model checking (Kani/CBMC): tokenizer kernel for all 256 opcodes + template harnesses",
+ "C06": dict(claimed=True, tech="bounded model checking (Kani/CBMC): tokenizer kernel for all 256 opcodes + template harnesses",
    text="One maybe_push_data step from any position of any <=12-byte script follows Bitcoin push rules; eval on enumerated opcode structures with symbolic payloads yields the template types and Base58Check payloads of the property.",
    note="Outside: free-form scripts with symbolic opcodes at every position (OOM), Base58 digit conversion, SHA/RIPEMD (uninterpreted)."),
- "C07": dict(claimed=False, tech="bounded model checking (Kani/CBMC) of remove_unspents/insert_unspents against a flat alive-table oracle",
+ "C07": dict(claimed=True, tech="bounded model checking (Kani/CBMC) of remove_unspents/insert_unspents against a flat alive-table oracle",
    text="For every 2-block history within the bound (symbolic txids, indices, values, addresses, spend targets) the final map equals the oracle's alive address-bearing outputs; key round trip; one row per entry.",
    note="Outside: long histories; rendering of wide integers."),
- "C08": dict(claimed=False, tech="bounded model checking (Kani/CBMC) of Balances::{on_block,on_complete}",
+ "C08": dict(claimed=True, tech="bounded model checking (Kani/CBMC) of Balances::{on_block,on_complete}",
    text="Balances and UnspentCsvDump leave equal maps on the same blocks; on_complete writes one line per distinct address with the exact sum.",
    note="Outside: more than 3 outputs per address; decimal rendering of wide sums."),
- "C09": dict(claimed=False, tech="bounded model checking (Kani/CBMC) with uninterpreted hash + call log",
+ "C09": dict(claimed=True, tech="bounded model checking (Kani/CBMC) with uninterpreted hash + call log",
    text="merkle_root follows Bitcoin's schedule for n<=5 (9 thorough) leaves; ChainStorage::verify accepts iff merkle, prev-hash/genesis conditions hold; failure stops the driver with exit 1 before on_complete.",
    note="Outside: collision resistance; trees above the bound."),
- "C10": dict(claimed=False, tech="bounded model checking (Kani/CBMC) over a symbolic write-fault schedule (ghost fs model)",
-   text="For every fault schedule of File::write within the bound: on_complete Ok implies all buffers flushed before the first rename and all renames done; any Err implies no rename. Read faults: truncated file -> Err, driver exits 1 before on_complete.",
-   note="Partial: SIGKILL instants, kernel rename atomicity, RLIMIT_FSIZE and leftover *.tmp files are real-FS behaviour and outside."),
- "C11": dict(claimed=False, tech="bounded model checking (Kani/CBMC) of XorReader over seek_bufread::BufReader",
+ "C10": dict(claimed=True, tech="bounded model checking (Kani/CBMC) over a symbolic write-fault schedule (ghost fs model)",
+   text="For the fault-free run and for the first failing File::write at every call position (concrete per instance in the quick tier - the first failure ends the run, so these are all schedules; symbolic schedules incl. short writes in the thorough tier): on_complete Ok implies nothing failed, all buffers flushed before the first rename, all files complete and renamed; any Err implies no rename. A read/verify error ends the driver with exit 1 before on_complete; a missing blk file is an Err.",
+   note="Partial: SIGKILL instants, kernel rename atomicity, RLIMIT_FSIZE and leftover *.tmp files are real-FS behaviour and outside. io::Error::is_interrupted/source/cause are cut (ghost file never reports EINTR). Truncated-file reads are thorough tier only."),
+ "C11": dict(claimed=True, tech="bounded model checking (Kani/CBMC) of XorReader over seek_bufread::BufReader",
    text="For enumerated key lengths / buffer capacities and symbolic key bytes, file bytes, seek positions and read lengths, every byte returned equals file[pos]^key[pos mod len].",
    note="Outside: key lengths other than listed; 32 KiB production buffer (capacity-generic code)."),
- "C12": dict(claimed=False, tech="bounded model checking (Kani/CBMC) of read_block with/without AuxPoW section",
+ "C12": dict(claimed=True, tech="bounded model checking (Kani/CBMC) of read_block with/without AuxPoW section",
    text="For boundary (version, threshold) pairs and enumerated section shapes with symbolic content the section is consumed exactly and header/tx fields come from behind it.",
    note="Outside: long merkle branches, big parent coinbases."),
- "C14": dict(claimed=False, tech="bounded model checking (Kani/CBMC): automatic panic/overflow/bounds checks on every harness + long-script sweeps + non-interference",
+ "C14": dict(claimed=True, tech="bounded model checking (Kani/CBMC): automatic panic/overflow/bounds checks on every harness + long-script sweeps + non-interference",
    text="No panic, overflow or OOB in the script evaluators and tx reader for every content within the enumerated shapes, including counter-boundary sweeps; scriptSig/witness bytes do not influence other fields.",
    note="Outside: irregular scripts of 10-100 KB."),
  "C15": dict(claimed=True, tech="bounded model checking (Kani/CBMC): exact-arithmetic differential harnesses",
    text="get_mean equals the exact u64-sum mean (bit-exact IEEE division) for every slice of <=4 u32; get_base_reward and the accumulators of SimpleStats::on_block equal an in-harness recomputation for every symbolic block content within the bound.",
    note="Partial: the text report's float formatting ({:.2}/{:.8}) is outside (float-to-decimal is out of reach for bit-blasting)."),
- "C16": dict(claimed=False, tech="bounded model checking (Kani/CBMC) of OP_RETURN payload extraction on both script paths",
+ "C16": dict(claimed=True, tech="bounded model checking (Kani/CBMC) of OP_RETURN payload extraction on both script paths",
    text="For each push form and payload length within the bound and every payload content, the OpReturn text equals the pushed payload (valid UTF-8) or is empty; OpReturn::on_block prints exactly the non-empty ones in order.",
    note="Outside: payloads of thousands of bytes."),
- "C17": dict(claimed=False, tech="bounded model checking (Kani/CBMC): one inductive step of the close rule from an arbitrary invariant-satisfying state",
+ "C17": dict(claimed=True, tech="bounded model checking (Kani/CBMC): one inductive step of the close rule from an arbitrary invariant-satisfying state",
    text="One get_block step from any open/closed state satisfying the invariant re-establishes it for the next height, for every layout of <=4 heights over 2-3 files.",
    note="Outside: hundreds of files, process-wide descriptor table."),
 }
